@@ -243,6 +243,8 @@ struct Worker<F: Function> {
     ws: F::Workspace,
     sie: ShapeTracingEval<F::IntervalEval>,
     sfe: ShapeBulkEval<F::FloatSliceEval>,
+    spe: ShapeTracingEval<F::PointEval>,
+    sge: ShapeBulkEval<F::GradSliceEval>,
     tape_stash: Vec<F::TapeStorage>,
     fn_stash: Vec<F::Storage>,
     /// A tape kept alive across later operations, with the clean function it
@@ -260,6 +262,8 @@ impl<F: Function> Worker<F> {
             ws: Default::default(),
             sie: Default::default(),
             sfe: Default::default(),
+            spe: Default::default(),
+            sge: Default::default(),
             tape_stash: vec![],
             fn_stash: vec![],
             held: None,
@@ -808,7 +812,7 @@ impl<'a, F: Function + MathFunction + Clone + Cross> World<'a, F> {
         match dom {
             Domain::Point(p) => vec![p[..nvars.min(p.len())].to_vec()],
             Domain::Box(b) => {
-                let npts = 6;
+                let npts = 1 + self.ch(|c| c.choose("npts", 9)) as usize;
                 (0..npts)
                     .map(|k| {
                         b.iter()
@@ -1446,6 +1450,184 @@ impl<'a, F: Function + MathFunction + Clone + Cross> World<'a, F> {
         }
     }
 
+    /// Shape-level evaluators (the wrappers renderers and the mesher use)
+    /// kept by the worker across functions with different variable sets and
+    /// batch lengths, compared with fresh wrappers
+    fn op_shape_eval(&mut self, w: usize, s: usize) {
+        if self.slots[s].dirty.output_count() != 1 {
+            return;
+        }
+        self.rep.count("op.shape_level_eval", 1);
+        self.rep.evaluations += 1;
+        let varmap: Vec<(Var, usize)> =
+            self.slots[s].dirty.vars().iter().collect();
+        let kind = self.ch(|c| c.choose("shape_eval_kind", 4));
+        let n = match kind {
+            0 | 1 => 1,
+            2 => self.ch(|c| c.choose("shape_n", 21)) as usize,
+            _ => self.ch(|c| c.choose("shape_gn", 9)) as usize,
+        };
+        let xf: Option<nalgebra::Matrix4<f32>> =
+            if self.ch(|c| c.flag("shape_xf")) {
+                let mut m = nalgebra::Matrix4::<f32>::identity();
+                m[(0, 3)] = self.ch(|c| c.float_sym("shape_xf_t", 1.0, 4));
+                m[(1, 1)] = 0.5;
+                m[(2, 0)] = 0.25;
+                Some(m)
+            } else {
+                None
+            };
+        let xs: Vec<f32> = (0..n).map(|_| self.ch(draw_val)).collect();
+        let ys: Vec<f32> = (0..n).map(|_| self.ch(draw_val)).collect();
+        let zs: Vec<f32> = (0..n).map(|_| self.ch(draw_val)).collect();
+        let mut sv = ShapeVars::<f32>::new();
+        for (v, _) in &varmap {
+            if let Var::V(vi) = v {
+                sv.insert(*vi, self.ch(draw_val));
+            }
+        }
+        let (storage, dirty_st) = self.tape_storage(w);
+        if dirty_st {
+            self.rep.count("fault.dirty_tape_storage", 1);
+        }
+        let all_fresh = self.all_fresh;
+        let dshape = Shape::new_raw(self.slots[s].dirty.clone());
+        let cshape = Shape::new_raw(self.slots[s].clean.clone());
+        let wk = &mut self.workers[w];
+        let xf = xf.as_ref();
+        // returns canonical bits of the result plus storage to recycle
+        let run = |shape: &Shape<F>,
+                   storage: F::TapeStorage,
+                   spe: &mut ShapeTracingEval<F::PointEval>,
+                   sie: &mut ShapeTracingEval<F::IntervalEval>,
+                   sfe: &mut ShapeBulkEval<F::FloatSliceEval>,
+                   sge: &mut ShapeBulkEval<F::GradSliceEval>|
+         -> (Vec<u32>, Option<F::TapeStorage>) {
+            match kind {
+                0 => {
+                    let t = shape.point_tape(storage);
+                    let v = spe
+                        .eval_raw(&t, xs[0], ys[0], zs[0], xf, &sv)
+                        .expect("vars bound")
+                        .0;
+                    (vec![canon(v)], t.recycle())
+                }
+                1 => {
+                    let t = shape.interval_tape(storage);
+                    let iv = |v: f32| Interval::new(v, v + 0.5);
+                    let v = sie
+                        .eval_raw(&t, iv(xs[0]), iv(ys[0]), iv(zs[0]), xf, &sv)
+                        .expect("vars bound")
+                        .0;
+                    (vec![canon(v.lower()), canon(v.upper())], t.recycle())
+                }
+                2 => {
+                    let t = shape.float_slice_tape(storage);
+                    let v: Vec<u32> = sfe
+                        .eval_raw(
+                            &t,
+                            &xs,
+                            &ys,
+                            &zs,
+                            xf,
+                            ShapeBulkEval::<F::FloatSliceEval>::var_value(&sv),
+                        )
+                        .expect("vars bound")
+                        .iter()
+                        .map(|v| canon(*v))
+                        .collect();
+                    assert_eq!(v.len(), n, "one result per sample");
+                    (v, t.recycle())
+                }
+                _ => {
+                    let t = shape.grad_slice_tape(storage);
+                    let g = |v: &[f32], a: usize| -> Vec<Grad> {
+                        v.iter()
+                            .map(|v| {
+                                let mut d = [0.0; 3];
+                                d[a] = 1.0;
+                                Grad::new(*v, d[0], d[1], d[2])
+                            })
+                            .collect()
+                    };
+                    let out = sge
+                        .eval_raw(
+                            &t,
+                            &g(&xs, 0),
+                            &g(&ys, 1),
+                            &g(&zs, 2),
+                            xf,
+                            ShapeBulkEval::<F::GradSliceEval>::var_value(&sv),
+                        )
+                        .expect("vars bound")
+                        .to_vec();
+                    assert_eq!(out.len(), n, "one result per sample");
+                    let v = out
+                        .iter()
+                        .flat_map(|g| {
+                            [canon(g.v), canon(g.dx), canon(g.dy), canon(g.dz)]
+                        })
+                        .collect();
+                    (v, t.recycle())
+                }
+            }
+        };
+        let d = rt::catch(|| {
+            if all_fresh {
+                run(
+                    &dshape,
+                    storage,
+                    &mut Default::default(),
+                    &mut Default::default(),
+                    &mut Default::default(),
+                    &mut Default::default(),
+                )
+            } else {
+                run(
+                    &dshape,
+                    storage,
+                    &mut wk.spe,
+                    &mut wk.sie,
+                    &mut wk.sfe,
+                    &mut wk.sge,
+                )
+            }
+        });
+        let c = rt::catch(|| {
+            run(
+                &cshape,
+                Default::default(),
+                &mut Default::default(),
+                &mut Default::default(),
+                &mut Default::default(),
+                &mut Default::default(),
+            )
+            .0
+        });
+        match (d, c) {
+            (Ok((d, st)), Ok(c)) => {
+                if let (Some(st), false) = (st, all_fresh) {
+                    wk.tape_stash.push(st);
+                }
+                let h = d.iter().fold(11u64, |h, v| mix(h, *v as u64));
+                self.st.borrow_mut().log_digest("shape_eval", h);
+                if d != c {
+                    self.violate10(
+                        "shape_eval_result_differs_from_fresh",
+                        format!(
+                            "kind {kind} n {n}: reused shape-level evaluator gives {d:?}, fresh {c:?}"
+                        ),
+                    );
+                }
+            }
+            (Err(p), Ok(_)) => self.violate10(
+                "shape_eval_panic_only_with_reused_objects",
+                format!("kind {kind} n {n}: {p}"),
+            ),
+            _ => self.rep.count("other.clean_panic", 1),
+        }
+    }
+
     fn step(&mut self) {
         self.ops += 1;
         self.rep.steps += 1;
@@ -1465,9 +1647,9 @@ impl<'a, F: Function + MathFunction + Clone + Cross> World<'a, F> {
             self.ch(|c| c.choose("slot", ns)) as usize
         };
         let weights: &[u32] = match self.mode {
-            // eval, simplify, new, recycle, clone, move, held, rh
-            Mode::C10 => &[10, 5, 2, 2, 1, 1, 2, 2],
-            Mode::C04 => &[8, 9, 2, 1, 1, 1, 0, 3],
+            // eval, simplify, new, recycle, clone, move, held, rh, shape-eval
+            Mode::C10 => &[10, 5, 2, 2, 1, 1, 2, 2, 4],
+            Mode::C04 => &[8, 9, 2, 1, 1, 1, 0, 3, 0],
         };
         let total: u32 = weights.iter().sum();
         let mut r = self.ch(|c| c.choose("op", total));
@@ -1504,7 +1686,8 @@ impl<'a, F: Function + MathFunction + Clone + Cross> World<'a, F> {
                 self.op_move_stash(w, b)
             }
             6 => self.op_eval_held(w),
-            _ => self.op_render_handle(w, s),
+            7 => self.op_render_handle(w, s),
+            _ => self.op_shape_eval(w, s),
         }
     }
 }
